@@ -352,8 +352,11 @@ def _only(run, kind):
     return []
 
 
-def _system_trace(run, prefix, kind="", n=None):
-    tr = _t(run, "system-%s.ndjson" % (kind or "all"))
+PRELOAD = {"SUBSTREAMS_DISABLE_PRELOAD_EXEC_FILES": "true"}   # (sic) any value but "", "0", "false" switches the walker's file preloader ON
+
+
+def _system_trace(run, prefix, kind="", n=None, env=None, tag=""):
+    tr = _t(run, "system-%s%s.ndjson" % (kind or "all", tag))
     extra = []
     if kind:
         extra += ["-x", kind]
@@ -361,11 +364,11 @@ def _system_trace(run, prefix, kind="", n=None):
         extra += ["-n", str(n)]
     extra += _only(run, kind)
     if run.tier == "thorough" and not _only(run, kind):
-        info = run.harness_sharded("system", tr, extra=extra, shards=8, timeout=3000)   # scenarios are independent per index
+        info = run.harness_sharded("system", tr, extra=extra, shards=8, timeout=3000, env=env)   # scenarios are independent per index
     else:
-        info = run.harness("system", tr, extra=extra, timeout=3000)
+        info = run.harness("system", tr, extra=extra, timeout=3000, env=env)
     v = run.validate_sharded("TraceSystem", tr, boundary='"ev":"prog"', shards=12, xss="512m")
-    run.judge(v, tr, "system-" + (kind or "all"), only=prefix)
+    run.judge(v, tr, "system-" + (kind or "all") + tag, only=prefix)
     if kind != "forks" and kind != "faults" and not _only(run, kind):
         _st_system(run, tr)
     run.cov["distinct_nontrivial"] += info["distinct_nontrivial"]
@@ -404,6 +407,8 @@ def C04(run):
     run.model_check("MCPlan", "MCPlan_quick.cfg", workers=8)
     _system_common(run, "C04:", "resume")
     _system_trace(run, "C04:", "strategies", n=(14 if run.tier == "quick" else 1000))
+    # the same with the walker's output-file preloader switched on (an alternative configuration of the real code)
+    _system_trace(run, "C04:", "strategies", n=(14 if run.tier == "quick" else 600), env=PRELOAD, tag="-preload")
 
 
 def C07(run):
